@@ -613,7 +613,7 @@ def run_case(case, cfg):
             reached = True  # only a proven-unsat path condition makes a path vacuous
             if v == "unknown":
                 rep["inconclusive"].append(dict(path=pi, goal="<reachability twin>", why="satisfiability of the path hypotheses unknown"))
-        pch = hashlib.sha1(("|".join(sorted(str(p) for p in ctx.pc))).encode()).hexdigest()[:12]
+        pch = hashlib.sha1(("|".join(sorted(p.sexpr() for p in ctx.pc))).encode()).hexdigest()[:12]
         rep["pcs"].append(pch)
         env = None
         goals = []
@@ -644,7 +644,7 @@ def run_case(case, cfg):
             for (t, msg, where, npc) in ctx.obligations:
                 goals.append(("defined[%s @ %s]" % (msg, where), t))
         if rep["sample"] is None and goals:
-            rep["sample"] = dict(path_condition=[_short(p, 160) for p in ctx.pc][:6], goal=goals[0][0],
+            rep["sample"] = dict(path_condition=[_short(p.sexpr(), 160) for p in ctx.pc[:6]], goal=goals[0][0],
                                  formula=_short(goals[0][1], 400), rand_calls=len(ctx.rand_calls),
                                  axioms=len(ctx.axioms))
         seen_formula = set()
